@@ -139,3 +139,12 @@ func c20B(b []byte, long bool) []byte {
 	}
 	return b
 }
+
+// c20If: a field's value, or - on a tail path, for the fields above the chosen field number - its empty value.
+func c20If[T any](keep bool, v T) T {
+	if keep {
+		return v
+	}
+	var zero T
+	return zero
+}
